@@ -267,7 +267,7 @@ func checkScript(sc Script) (skipped bool, err error) {
 			if out.String() != ra.Out {
 				return false, fmt.Errorf("the script fails when run at once and in chunks, but after different output: at once\n%q\nin chunks (split before statements %v)\n%q\nscript:\n%s", ra.Out, sc.Splits, out.String(), whole)
 			}
-			if ga, gb := a.Globals(), b.Globals(); ga != gb {
+			if ga, gb := a.Globals(), b.Globals(); ga != gb && !sess.GlobalsUnavailable(ga) && !sess.GlobalsUnavailable(gb) {
 				return false, fmt.Errorf("globals differ after the failure, at once vs in chunks (split before statements %v):\n--- at once\n%s--- in chunks\n%s\nscript:\n%s", sc.Splits, ga, gb, whole)
 			}
 			return false, nil
@@ -282,7 +282,7 @@ func checkScript(sc Script) (skipped bool, err error) {
 	if out.String() != ra.Out {
 		return false, fmt.Errorf("output differs: at once\n%q\nin chunks (split before statements %v)\n%q\nscript:\n%s", ra.Out, sc.Splits, out.String(), whole)
 	}
-	if ga, gb := a.Globals(), b.Globals(); ga != gb {
+	if ga, gb := a.Globals(), b.Globals(); ga != gb && !sess.GlobalsUnavailable(ga) && !sess.GlobalsUnavailable(gb) {
 		return false, fmt.Errorf("final globals differ between evaluation at once and in chunks (split before statements %v):\n--- at once\n%s--- in chunks\n%s\nscript:\n%s", sc.Splits, ga, gb, whole)
 	}
 	return false, nil
